@@ -25,7 +25,7 @@ TSAN_ENV = {'TSAN_OPTIONS': 'halt_on_error=0:exitcode=0:report_signal_unsafe=0:h
 # ---- mirror of Model/CallPath.v, used ONLY to say which route breaks (the verdict is Coq's)
 PURE_CALLS = ['__dynamic_cast', 'strcmp', '_ZNKSt9type_infoeqERKS_', '_ZNKSt9type_info6beforeERKS_',
               '_ZNKSt9type_info4nameEv', '_ZNKSt9type_info9hash_codeEv']
-OWNER_CALLS = ['_Znwm', '_ZdlPv', '_ZdlPvm']
+OWNER_CALLS = ['_Znwm', '_ZdlPv', '_ZdlPvm', '__cxa_allocate_exception', '__cxa_throw', 'abort']
 OWNED_TYPES = ['class.std::_Sp_counted']
 SMART = ['call_shared', 'shared_ctor', 'shared_copy', 'shared_cast', 'shared_make']
 VMAP_CTOR = ['vptr_exact', 'vptr_from_base', 'shared_ctor']
@@ -52,7 +52,7 @@ def access_owner_only(a):
 
 
 def is_smart(r):
-    return r['name'] in SMART or r['name'].startswith('thunk_skick')
+    return r['name'] in SMART or r['name'].startswith('thunk_skick') or r['name'].startswith('errstub_')
 
 
 def excluded(r):
@@ -70,7 +70,7 @@ def offending(r):
     n = sum(1 for a in r['accesses'] if a[0] == 'IndirectCall')
     if r['name'].startswith('call_') and n != 1:
         bad.append(['DispatchJumpCount', str(n)])
-    elif not r['name'].startswith('call_') and not is_smart(r) and n != 0:
+    elif not r['name'].startswith(('call_', 'errcall_')) and not is_smart(r) and n != 0:
         bad.append(['DispatchJumpCount', str(n)])
     return bad
 
